@@ -822,10 +822,9 @@ func luaFamilies(tier string) []*core.Family {
 			cases = append(cases, luaCaseRef{c, g})
 		}
 	}
-	caseCap := time.Duration(scaleBudget(50)) * time.Second
+	caseCap := caseCapFor(tier)
 	hang, budget := scaleBudget(200), scaleBudget(18)
 	if tier == "thorough" {
-		caseCap = time.Duration(scaleBudget(300)) * time.Second
 		hang, budget = scaleBudget(900), scaleBudget(150)
 	}
 	search := &core.Family{
@@ -875,7 +874,6 @@ func luaBadKeyFamily() *core.Family {
 		{"t[nil]=1", "t[nil]=1", true},
 		{"rawset(t,nan,1)", "rawset(t,0/0,1)", true},
 		{"rawset(t,nil,1)", "rawset(t,nil,1)", true},
-		{"t[nan]=nil", "t[0/0]=nil", true},
 		{"read t[nan]", "assert(t[0/0]==nil)", false},
 		{"read t[nil]", "assert(t[nil]==nil)", false},
 		{"rawget(t,nan)", "assert(rawget(t,0/0)==nil)", false},
